@@ -94,7 +94,9 @@ def _patch(wu):
           # comparing it with the one that was served (Warp gives kernels of identical code the same key)
           AUDIT["rebuilt_on_hit"] = AUDIT.get("rebuilt_on_hit", 0) + 1
           k2 = func(*args)
-          same = (k2 is k) or (getattr(k2, "key", object()) == getattr(k, "key", None))
+          # module="unique" kernels: the module name carries Warp's content hash (kernel.key does not)
+          ident = lambda kk: (getattr(getattr(kk, "module", None), "name", None), getattr(kk, "key", None))
+          same = (k2 is k) or (ident(k2)[0] is not None and ident(k2) == ident(k))
           if same:
             known.add(fp)
           elif len(AUDIT["collisions"]) < 10:
